@@ -1538,6 +1538,17 @@ func (b *Bitmap) ImportRoaringBits(data []byte, clear bool, log bool, rowSize ui
 	if itr == nil {
 		return 0, nil, errors.New("failed to create roaring iterator, but don't know why")
 	}
+	// Walk the whole payload once before touching the bitmap, so that a
+	// malformed payload is rejected without having been partly applied.
+	if vitr, verr := newRoaringIterator(data); verr == nil {
+		_, _, _, _, _, verr = vitr.Next()
+		for verr == nil {
+			_, _, _, _, _, verr = vitr.Next()
+		}
+		if verr != io.EOF {
+			return 0, nil, verr
+		}
+	}
 
 	rowSet = make(map[uint64]int)
 
